@@ -136,8 +136,15 @@ package parsepasses
 // the rules are checked on every node of the template: whatever the kind of a
 // node, if it has children (a loop has three: list, body, {ifempty}) they are
 // all checked (recurse), so nothing in any branch escapes the pass.
+// a loop variable named ij could never be read ($ij is the injected data):
+// it is refused, like a {let} of that name.
+//@ func (*templateChecker).checkLoopVar
+//@   props C07
+//@   pure
+//@   ensures[a-loop-variable-is-never-named-ij;C07] varName != "ij"
 //@ func (*templateChecker).checkTemplate
 //@   props C07
+//@   at call (*templateChecker).checkLoopVar#0 assert[the-loop's-own-variable-is-what-is-checked;C07] same(arg1, unbox(node, *ast.ForNode).Var)
 //@   nosafety
 //@   noterm
 //@   modifies *
